@@ -343,4 +343,60 @@ theorem C18_oversize_reopen_false :
   have := h (fun _ => 0) { max := 64 } [([1], List.replicate 60 0)] hw hc rfl
   exact this (by rfl)
 
+/-! ## a commit that fails with an I/O error after a rollover (`ocommit`) -/
+
+/-- A commit that fails with an I/O error on block file `n` leaves no trace in the block index,
+    the write cursor (in memory and persisted) or the pending set. -/
+theorem C18_failed_commit_no_trace (crc : Bytes → Nat) (s : Store) (n : Nat)
+    (h : (commitObstructed crc s n).2 = true) :
+    let s' := (commitObstructed crc s n).1
+    s'.index = s.index ∧ s'.curFile = s.curFile ∧ s'.curOff = s.curOff ∧ s'.writeLoc = s.writeLoc ∧
+      s'.pending = none := by
+  unfold commitObstructed at h ⊢
+  cases hp : s.pending with
+  | none => simp [hp] at h
+  | some p =>
+    simp only [hp] at h ⊢
+    rcases hb : blocksUntil crc n { s with pending := none } p with ⟨s1, failed⟩
+    rw [hb] at h
+    simp only at h ⊢
+    cases failed with
+    | false => simp at h
+    | true => simp
+
+/-- … and when no block is directed to file `n` it is the ordinary commit. -/
+theorem blocksUntil_ok (crc : Bytes → Nat) (n : Nat) : ∀ (p : List (Bytes × Bytes)) (s : Store),
+    (blocksUntil crc n s p).2 = false → (blocksUntil crc n s p).1 = commitBlocks crc s p := by
+  intro p
+  induction p with
+  | nil => intro s _; rfl
+  | cons e rest ih =>
+    intro s h
+    obtain ⟨hh, d⟩ := e
+    simp only [blocksUntil] at h ⊢
+    by_cases ht : rollTarget s d = n
+    · simp [ht] at h
+    · simp only [ht, if_false] at h ⊢
+      simp only [commitBlocks]
+      exact ih _ h
+
+theorem C18_obstructed_commit_ok (crc : Bytes → Nat) (s : Store) (n : Nat)
+    (h : (commitObstructed crc s n).2 = false) : (commitObstructed crc s n).1 = commit crc s := by
+  unfold commitObstructed at h ⊢
+  unfold commit
+  cases hp : s.pending with
+  | none => rfl
+  | some p =>
+    simp only [hp] at h ⊢
+    rcases hb : blocksUntil crc n { s with pending := none } p with ⟨s1, failed⟩
+    rw [hb] at h
+    simp only at h ⊢
+    cases failed with
+    | true => simp at h
+    | false =>
+      have := blocksUntil_ok crc n p { s with pending := none } (by rw [hb])
+      rw [hb] at this
+      simp only at this
+      simp [this]
+
 end ElaVerif.C18
